@@ -31,8 +31,9 @@ MUTANTS = [
      "                if self.ipnet.prefixlen >= 31:\n                    self._type = \"host\"\n                elif str(self.ipnet) == \"0.0.0.0/0\":", "C02 C01 C06"),
     ("M16", "address_ag.py", "            elif self.ipnet.prefixlen == 32:\n                self._type = \"host\"",
      "            elif self.ipnet.prefixlen >= 31:\n                self._type = \"host\"", "C02 C06"),
-    ("M20", "helpers.py", "        if not 0 <= start <= SEQUENCE_MAX:", "        if not 0 <= start <= SEQUENCE_MAX + 1:", "C10"),
     ("M21", "helpers.py", "        if sequence > SEQUENCE_MAX:", "        if sequence > SEQUENCE_MAX + 1:", "C10"),
+    ("M22", "ace_group.py", "            if id_ < count:\n                sequence += step\n        return sequence\n\n    def ungroup_ports", "            if id_ <= count:\n                sequence += step\n        return sequence\n\n    def ungroup_ports", "C10"),
+    ("M23", "helpers.py", "        if start and step < 1:", "        if start and step < 0:", "C10"),
     ("M30", "port.py", "            return [ports[0] - 1] if ports else [65535]", "            return [ports[0]] if ports else [65535]", "C08"),
     ("M31", "port.py", "            return [ports[-1] + 1] if ports else [1]", "            return [ports[1] + 1] if ports else [1]", "C08"),
     ("M32", "port.py", "        ports = sorted(ports)\n        if operator == \"eq\":", "        if operator == \"eq\":", "C08"),
